@@ -15,7 +15,7 @@ RULE = ("cases = (failure kind, call chain): each defined dynamic failure (asser
         "chains. Oracle: stdout = the prescribed lines, exit status 1 (not 101/134), the FATAL RUNTIME ERROR banner, and a "
         "trace whose function entries are exactly the active chain innermost first down to __module__ and whose block-frame "
         "entries (<if>/<else>/<while>) are exactly the blocks open at the failure - loops completed by break / continue before the "
-        "failure must leave nothing behind (native entries dropped); labels of function values are learnt from `print f` lines; a failed assert must name "
+        "failure must leave nothing behind (native entries in the middle of the chain are dropped; for a failure inside a built-in method the innermost entry must be the native frame of that built-in); labels of function values are learnt from `print f` lines; a failed assert must name "
         "file:line:col of that assert. A second small family - callbacks of filter / map that change the collection being walked - may complete or fail, but must not end in an internal panic. Non-trivial = depth >= 2 or a callback / method / import in the chain; distinct by "
         "(kind, chain, wrappers)")
 ASSUMPTIONS = ["function labels are read from the program's own `print <function>` output instead of modelling id assignment",
@@ -63,6 +63,10 @@ KINDS = {
                             ("decl", "v", None, ("call", V("rec"), [V("a")]), ())),
     "list-remove": ([("decl", "l", ("list", "int"), ("list", [I(1)]), ())], ("decl", "v", None, ("mcall", V("l"), "remove", [("bin", "+", V("a"), I(5))]), ())),
 }
+# failures raised INSIDE a built-in method: the innermost entry of the trace is the native frame of that built-in
+NATIVE = {"overflow-abs-min": "GenericAbs", "str-delete-inside-char": "StrDelete", "str-split-inside-char": "StrSplit", "str-substring-range": "StrSubstring",
+          "str-insert-range": "StrInsert", "parse-radix": "StrParseIntRadix", "to-byte-conversion": "GenericToByte", "to-int-conversion": "GenericToInt",
+          "pow-negative": "GenericPow", "list-remove": "VecRemove"}
 ELEMS = ["F", "C", "M", "CB"]
 WRAPS = ["none", "if", "else", "while", "from"]
 
@@ -209,7 +213,7 @@ def build(case):
             l, c = mmarks[id(failing)]
             assert_pos = "main.ms:%d:%d" % (l, c)
     sc = {"files": files_out, "cwd": "p/q/r", "steps": [{"id": "run", "argv": ["mscript", "run", "main.ms", "-q"]}],
-          "asserts": [{"kind": "c17_report", "step": "run", "lines": expect, "chain": exp_chain, "assert_pos": assert_pos, "innermost_repeats": kind == "unbounded-recursion"}]}
+          "asserts": [{"kind": "c17_report", "step": "run", "lines": expect, "chain": exp_chain, "assert_pos": assert_pos, "innermost_repeats": kind == "unbounded-recursion", "native": NATIVE.get(kind)}]}
     return sc
 
 
@@ -223,6 +227,7 @@ NOPANIC = {
     "map-callback-clears": "xs: [int...] = [1, 2, 3]\nys = xs.map(fn(x: int) -> int {\n\txs.clear()\n\treturn x * 2\n})\nprint ys.len()\n",
     "map-callback-removes": "xs: [int...] = [1, 2, 3, 4]\nys = xs.map(fn(x: int) -> int {\n\tif xs.len() > 2 {\n\t\txs.remove(0)\n\t}\n\treturn x\n})\nprint ys.len()\n",
     "map-callback-pushes": "xs: [int...] = [1, 2]\nys = xs.map(fn(x: int) -> int {\n\tif xs.len() < 6 {\n\t\txs.push(x + 10)\n\t}\n\treturn x\n})\nprint ys.len()\n",
+    "ensure-capacity-beyond-memory": "l: [int...] = [1]\nl.ensure_inner_capacity(2147483647)\nprint l.len()\n",
     "filter-in-filter-clears-outer": "xs: [int...] = [1, 2, 3]\nzs: [int...] = [5, 6]\nys = xs.filter(fn(x: int) -> bool {\n\tws = zs.filter(fn(z: int) -> bool {\n\t\txs.clear()\n\t\treturn true\n\t})\n\treturn ws.len() > 0\n})\nprint ys.len()\n",
 }
 
@@ -230,7 +235,7 @@ NOPANIC = {
 def nopanic_scenario(name):
     src = "print \"@start\"\n" + NOPANIC[name] + "print \"@end\"\n"
     return {"files": {"p/q/r/main.ms": src}, "cwd": "p/q/r", "steps": [{"id": "run", "argv": ["mscript", "run", "main.ms", "-q"]}],
-            "asserts": [{"kind": "exit", "step": "run", "in": ["ok", "error"]}, {"kind": "stderr_lacks", "step": "run", "value": "panicked at"},
+            "asserts": [{"kind": "exit", "step": "run", "in": ["ok", "error"]}, {"kind": "stderr_lacks", "step": "run", "value": "panicked at"}, {"kind": "stderr_lacks", "step": "run", "value": "memory allocation of"},
                         {"kind": "stdout_has", "step": "run", "value": "@start"},
                         {"kind": "any_of", "options": [[{"kind": "exit", "step": "run", "in": ["ok"]}, {"kind": "stdout_has", "step": "run", "value": "@end"}],
                                                        [{"kind": "exit", "step": "run", "in": ["error"]}, {"kind": "stderr_has", "step": "run", "value": "MSCRIPT INTERPRETER FATAL RUNTIME ERROR"}]]}]}
@@ -264,14 +269,21 @@ def a_report(a, res, ctx):
         out.append("banner: stderr lacks the fatal run-time error banner")
     else:
         m = re.search(r"Call stack trace:\n(.*?)\n\nCaused by", r.stderr, re.S)
-        got = []
+        got, innermost = [], None
         if m:
             for ln in m.group(1).replace("\r", "").split("\n"):
                 ln = ln.strip()
                 if ln.startswith(">> ") or ln.startswith("^ "):
                     lab = ln.split(" ", 1)[1].strip()
+                    if innermost is None:
+                        innermost = lab
                     if not lab.startswith("<native code>"):
                         got.append(lab)
+        want_native = a.get("native")
+        if want_native and not (innermost or "").startswith("<native code>") or want_native and want_native not in (innermost or ""):
+            out.append("trace-native: the failure happens inside the built-in %s, whose native frame must be the innermost entry; innermost is %r" % (want_native, innermost))
+        if "native" in a and not want_native and (innermost or "").startswith("<native code>"):     # (older witnesses do not say)
+            out.append("trace-native: the innermost entry is a native frame (%r) although the failing operation is not a built-in method" % innermost)
         exp = []
         for e in a["chain"]:
             exp.append(e["block"] if "block" in e else (e["label"] if "label" in e else labels.get(e["fn"], "<label of %s not printed>" % e["fn"])))
